@@ -92,6 +92,8 @@ def modes(ctx, prog, T):
                       'a parenthesis group must not adopt the previous operand as its child (juxtaposition `1 + 2()`, `-1()` would get a meaning)', span=span_r)
         elif arity[k] == 0:
             ctx.check(k not in rk, 'S13.2', 'rotation:' + k, 'leaf-adopts-operand', 'a leaf (%s) must not adopt the previous operand' % k, span=span_r)
+        elif arity[k] == 1:
+            ctx.check(k not in rk, 'S13.2', 'rotation:' + k, 'prefix-adopts-operand', 'a prefix operator or function (%s) takes its only operand from the right: it must not adopt the previous operand (`(true) !` would get a meaning)' % k, span=span_r)
     ctx.sample(dict(rule='S13.1/2', plain_push_kinds=pk, rotation_kinds=rk))
 
 
